@@ -684,3 +684,31 @@ def run_event_roles(model, cg):
     if not (len(flag_p) == len(fab_p) == len(q_p) == 1):
         raise AnalysisError('run_event parameters (run flag, fabric flag, queue) not identified from the spawn site: %s' % bind)
     return re_, g, flag_p[0], fab_p[0], q_p[0], re_.params[0]
+
+
+
+def token_pairing(run, model, cg, rule):
+    """the consumer thread takes exactly one wake-up token and at most one event per iteration of its loop: only then does "the token queue is full" mean "the deque is
+    full", which is what LockingDeque.append/appendleft take it for when they choose the overflow path (a consumer that handles several events per token leaks tokens
+    while it is busy; after 500 of them every delivery into the not-at-all-full queue is treated as an overflow and reorders the pending events)"""
+    re_, g, flag_p, fab_p, q_p, selfn = run_event_roles(model, cg)
+    heads = [h for h in g.loop_heads() if h.kind == 'test']
+    heads = [h for h in heads if not any(h in g.loop_body(o) for o in heads if o is not h)]
+    if len(heads) != 1:
+        raise AnalysisError('run_event: thread loop not found')
+    h = heads[0]
+    body = g.loop_body(h)
+    start = [m for m, l in g.succ[h] if l == 'true'][0]
+
+    def nodes_calling(recv, meth):
+        return [n for n in body if n.kind not in ('entry', 'exit', 'xexit', 'def') and
+                any(isinstance(c.func, ast.Attribute) and c.func.attr == meth and dotted(c.func.value) == recv for c in n.calls())]
+    waits = nodes_calling(q_p, 'wait') + nodes_calling(q_p, 'get') + nodes_calling(selfn + '.queue', 'wait')
+    steps = nodes_calling(selfn, 'next_rtc')
+    wc = count(g, waits, start=start, end=h)
+    sc = count(g, steps, start=start, end=h)
+    ok = wc == (1, 1) and sc is not None and sc[1] <= 1
+    run.inst(rule, re_, 'one wake-up token and at most one event per iteration of the thread loop', ok,
+             '' if ok else ('an iteration of the active object\'s thread loop takes %s tokens and handles %s events: tokens and pending events are no longer paired, the token queue fills up '
+                            'while the deque is nearly empty, and from then on LockingDeque.append treats every delivery as an overflow (rotate + append): a delivered event is placed '
+                            'behind or in front of the wrong pending events' % (wc, sc)), node=h.ast, obligation=True)
